@@ -62,7 +62,7 @@ class Check(Prop):
         @st.composite
         def case(draw):
             nk = draw(st.integers(2, 5))
-            keys = KEYS[:nk]
+            keys = draw(st.sampled_from([KEYS, ["k1", "k10", "k2", "k20", "k"], ["x", "x2", "x_y", "xa", "x1"]]))[:nk]
             decl = [(k, draw(st.sampled_from(TYPES)), draw(st.booleans())) for k in keys]
             npos = draw(st.integers(0, 2))
             user = draw(st.booleans())
